@@ -1884,6 +1884,8 @@ double ov_time_tell(OggVorbis_File *vf){
       time_total-=ov_time_total(vf,link);
       if(vf->pcm_offset>=pcm_total)break;
     }
+    /* position unknown (after a failed seek): stay inside the tables */
+    if(link<0)link=0;
   }
 
   return((double)time_total+(double)(vf->pcm_offset-pcm_total)/vf->vi[link].rate);
